@@ -119,7 +119,8 @@ def build():
                        ("is_type_generic", "kind(type_) == K_TYPEGEN"), ("is_tuple", "kind(type_) == K_TUPLE or is_bare_tuple(type_)"),
                        ("is_collection", "kind(type_) == K_TUPLE or kind(type_) == K_COLL or kind(type_) == K_COLLBARE"),
                        ("is_optional", "kind(type_) == K_UNION and union_has_none(type_)")):
-        A(Contract(f"{TM_}:{name}", params={"type_": "Ty"}, returns="bool", trusted=True, trusted_reason=why, props=P, ensures=[f"result == ({cond})"]))
+        A(Contract(f"{TM_}:{name}", params={"type_": "Ty"}, returns="bool", trusted=True, props=P, ensures=[f"result == ({cond})"],
+                   trusted_reason=("callee summary; proved in contracts.typing_area as " + name + "#body against the kind model" + (" (union_has_none(t) abbreviates: some argument of t has kind NONETYPE)" if name == "is_optional" else "")) if name in ("is_optional", "is_new_type") else why))
     bare_tuple = z3.Function("is_bare_tuple", TY.z3(), z3.BoolSort())
     sf["is_bare_tuple"] = lambda t: VBool(z3.And(kind(t.term) == K["COLLBARE"], bare_tuple(t.term)))
     sf["union_has_none"] = lambda t: VBool(has_none(t.term))
@@ -343,5 +344,47 @@ def build():
     A(Contract(f"{TM_}:is_new_type", variant_of="body", params={"type_": "Ty"}, returns="bool", props=P, ensures=["result == (kind(type_) == K_NEWTYPE)"],
                note="isinstance against typing.NewType (a TypeError from isinstance would answer False; none arises in the model)"))
     reg.contracts[f"{TM_}:is_new_type#body"].fn = f"{TM_}:is_new_type"
+    # ---- is_optional against the kind model: a union one of whose arguments is NoneType -------------------------------------------------------------
+    any_nonetype = lib.fn("any_nonetype", [STY], BOOL)
+    any_nonetype.rule("any_nonetype-empty", 0, "empty")(lambda a, p: z3.BoolVal(False))
+    any_nonetype.rule("any_nonetype-cons", 0, "cons")(lambda a, p: z3.Or(kind(p[0]) == K["NONETYPE"], any_nonetype.t(p[1])))
+    sf["any_nonetype"] = any_nonetype
+    sf["type_args"] = sf["args"]            # (`args` is also a local of is_optional)
+
+    def anyall_none(m, name, ge, env):
+        # any(a is type(None) for a in <types>): Python's any over the argument sequence, with `a is type(None)` read as kind(a) == NONETYPE
+        if name != "any" or len(ge.generators) != 1 or ge.generators[0].ifs or not isinstance(ge.generators[0].target, ast.Name):
+            return None
+        el, tv = ge.elt, ge.generators[0].target.id
+        if not (isinstance(el, ast.Compare) and len(el.ops) == 1 and isinstance(el.ops[0], ast.Is) and isinstance(el.left, ast.Name) and el.left.id == tv
+                and ast.unparse(el.comparators[0]) == "type(None)"):
+            return None
+        saved = m.env
+        try:
+            m.env = dict(env)
+            it = m.eval(ge.generators[0].iter)
+            sv = m.seq_value(it) if not isinstance(it, VSeq) else it
+            if sv is None or sv.sort != STY:
+                return None
+            return VBool(any_nonetype.t(sv.term))
+        finally:
+            m.env = saved
+
+    world.anyall_hooks.append(anyall_none)
+
+    def is_hook_optional(m, a, b):
+        # get_origin(t) is typing.Optional: never (CPython's get_origin returns typing.Union for Optional[...])
+        for x, y in ((a, b), (b, a)):
+            if isinstance(y, VPy) and y.obj == ("typing_const", "Optional") and (isinstance(x, VOpt) and x.sort.elem == ORG or isinstance(x, VU) and x.sort == ORG or isinstance(x, VNone)):
+                return z3.BoolVal(False)
+        return None
+
+    from pyvc.values import VNone
+    world.eq_hooks.insert(0, is_hook_optional)
+    world.name_hooks.append(lambda m, n: VPy(("typing_const", "Optional")) if n == "Optional" else None)
+    A(Contract(f"{TM_}:is_optional", variant_of="body", params={"type_": "Ty"}, returns="bool", props=P,
+               ensures=["result == (kind(type_) == K_UNION and any_nonetype(type_args(type_)))"],
+               note="a union with NoneType among its arguments (union_has_none(t) in the other contracts abbreviates any_nonetype(args(t))); get_origin never returns typing.Optional"))
+    reg.contracts[f"{TM_}:is_optional#body"].fn = f"{TM_}:is_optional"
     world.trusted_notes.append("wf_ty / wf_val (the shape facts CPython's typing module guarantees for annotations, the value kinds) are assumed of EVERY annotation and value object, nested ones included: the induction hypotheses used for members, element types and wrapped types rely on that, the recursive summary is_instance#callee does not re-require them")
     return world, lib, reg, []
